@@ -318,6 +318,12 @@ def exprs_for_cache(prog):
         'size': lambda: fe('size'),
         '(size + 1) * 2': lambda: arith(arith(fe('size'), 'Add', val('1')), 'Multiply', val('2')),
         'size + 1 * 2': lambda: arith(fe('size'), 'Add', arith(val('1'), 'Multiply', val('2'))),
+        # the same operator twice, differing only in bracket placement
+        'size - (uid - 1)': lambda: arith(fe('size'), 'Subtract', arith(fe('uid'), 'Subtract', val('1'))),
+        'size - uid - 1': lambda: arith(arith(fe('size'), 'Subtract', fe('uid')), 'Subtract', val('1')),
+        # a negated function call that occurs in two columns
+        '-length(name) + 1': lambda: arith(E.mk_expr(prog, function=some(fn('Length')), left=some(BoxV(E.expr_field(prog, 'Name'))), args=some(Seq([])), minus=BoolVal(True)), 'Add', val('1')),
+        '-length(name) + 2': lambda: arith(E.mk_expr(prog, function=some(fn('Length')), left=some(BoxV(E.expr_field(prog, 'Name'))), args=some(Seq([])), minus=BoolVal(True)), 'Add', val('2')),
     }
 
 
@@ -330,7 +336,9 @@ def fam_cache(sess):
     names = list(exprs)
     pairs = [(a, b) for a in names for b in names if a != b]
     if sess.tier == 'quick':
-        pairs = [p for p in pairs if p[0] in ('size + 1', 'size', '(size + 1) * 2') or p[1] in ('size + 1',)]
+        special = ('size - (uid - 1)', 'size - uid - 1', '-length(name) + 1', '-length(name) + 2')
+        pairs = [p for p in pairs if (p[0] in ('size + 1', 'size', '(size + 1) * 2') or p[1] in ('size + 1',)) and p[0] not in special and p[1] not in special] + [
+            ('size - (uid - 1)', 'size - uid - 1'), ('size - uid - 1', 'size - (uid - 1)'), ('-length(name) + 1', '-length(name) + 2')]
     sess.bounds[fam] = {'expressions': names, 'pairs': len(pairs), 'columns': '16-bit symbolic integers'}
     viol_roles = {}
     npaths = [0]
@@ -339,7 +347,8 @@ def fam_cache(sess):
             sz = ctx.fresh_bv('size', 64); uid = ctx.fresh_bv('uid', 64)
             ctx.assume(ULT(sz, BitVecVal(1 << 16, 64))); ctx.assume(ULT(uid, BitVecVal(1 << 16, 64)))
             ctx.ghost['fields'] = {'Size': E.mk_variant(prog, 'Int', int_value=some(sz), float_value=some(z3.fpToFP(z3.RNE(), sz, z3.Float64())), string_value=NumStr(sz, True)),
-                                   'Uid': E.mk_variant(prog, 'Int', int_value=some(uid), float_value=some(z3.fpToFP(z3.RNE(), uid, z3.Float64())), string_value=NumStr(uid, True))}
+                                   'Uid': E.mk_variant(prog, 'Int', int_value=some(uid), float_value=some(z3.fpToFP(z3.RNE(), uid, z3.Float64())), string_value=NumStr(uid, True)),
+                                   'Name': E.mk_variant(prog, 'String', string_value=Str('abcd'))}
             s = E.mk_searcher(prog)
             sref = Ref(Cell(s))
 
